@@ -838,6 +838,38 @@ func ledgerCases(a hx.Args, rng *hx.Rng, res *hx.Result, cs *hx.Cases) {
 						}
 					}
 				}
+				// every decimal count 0..18: slot, returned amount, flag and ledger view against the re-scaling laws
+				// (ledger -> token: n quo 10^(18-d); token -> ledger: m * 10^(18-d); theorems C18_rescale_erc20/_rocket)
+				if c.decimal <= 18 && pan == nil && view != nil && arg.Sign() >= 0 && arg.BitLen() <= 300 && before.BitLen() <= 400 {
+					sc := pow10(int(18 - c.decimal))
+					erc := new(big.Int).Quo(arg, sc)
+					rocket := func(m *big.Int) *big.Int { return new(big.Int).Mul(m, sc) }
+					wantAfter, wantOK := new(big.Int).Set(before), true
+					var wantRet *big.Int // nil = not specified
+					switch op {
+					case 0:
+						wantRet = rocket(before)
+					case 1:
+						wantAfter = erc
+					case 2:
+						wantAfter = new(big.Int).Add(before, erc)
+					case 3:
+						if before.Cmp(erc) < 0 {
+							wantOK = false
+						} else {
+							wantAfter = new(big.Int).Sub(before, erc)
+							wantRet = rocket(wantAfter) // the balance left, in the ledger's unit
+						}
+					}
+					opName := []string{"GetFT", "SetFT", "AddFT", "SubFT"}[op]
+					in := map[string]interface{}{"coin": c.name, "decimal": c.decimal, "op": opName, "slot_before": before.String(), "amount": arg.String()}
+					if after.Cmp(wantAfter) != 0 || view.Cmp(rocket(wantAfter)) != 0 {
+						res.Violate("C18/rescale:accountdb:"+opName+"-slot", fmt.Sprintf("%s(%v) on a coin with %d decimals, slot %v: slot after %v (want %v), ledger view %v (want %v)", opName, arg, c.decimal, before, after, wantAfter, view, rocket(wantAfter)), in)
+					}
+					if ok != wantOK || (wantRet != nil && (ret == nil || ret.Cmp(wantRet) != 0)) {
+						res.Violate("C18/rescale:accountdb:"+opName+"-return", fmt.Sprintf("%s(%v) on a coin with %d decimals, slot %v -> %v: returns (%v, %v), want (%v, %v)", opName, arg, c.decimal, before, after, ret, ok, wantRet, wantOK), in)
+					}
+				}
 				res.Count(class, fmt.Sprintf("L|%d|%d|%s|%s", c.decimal, op, before.String(), arg.String()), arg.Sign() != 0 || before.Sign() != 0)
 			}
 		}
@@ -1072,6 +1104,88 @@ func consumerCases(a hx.Args, rng *hx.Rng, res *hx.Result, cs *hx.Cases) {
 			}
 			transfer("sweep", bal, utility.BigIntToStr(bal), bal)
 		}
+	}
+	// target lists: several accounts, and one account under several spellings of its address; every entry moves
+	// exactly the integer its amount denotes, so an account is credited the sum over its spellings
+	multi := func(nAccounts int, spellingsPer int) {
+		src := common.BytesToAddress(rng.Bytes(20))
+		targets := map[string]types.TransferData{}
+		wantPer := map[common.Address]*big.Int{}
+		before := map[common.Address]*big.Int{}
+		total := new(big.Int)
+		var amountsHex []string
+		for i := 0; i < nAccounts; i++ {
+			raw := rng.Bytes(20)
+			raw[0], raw[19] = 0xab, 0xcd // letters, so that the case variants differ
+			acct := common.BytesToAddress(raw)
+			h := fmt.Sprintf("%x", raw)
+			spell := []string{"0x" + h, "0x" + strings.ToUpper(h), "0X" + h, h, strings.ToUpper(h)}
+			rngPerm := rng.Intn(len(spell))
+			before[acct] = new(big.Int).SetBytes(rng.Bytes(rng.Intn(10)))
+			adb.SetBalance(acct, before[acct])
+			wantPer[acct] = new(big.Int)
+			for k := 0; k < spellingsPer; k++ {
+				fl := []int{18, 18, 17, 1, 0, 9}[rng.Intn(6)]
+				ip := strings.TrimLeft(randDigits(rng, 1+rng.Intn(6)), "0")
+				if ip == "" {
+					ip = "1"
+				}
+				amount := ip
+				if fl > 0 {
+					amount += "." + nonzeroDigits(fl)
+				}
+				if i == 0 && spellingsPer > 1 {
+					amount = []string{"1.000000000000000001", "2.5", "0.000000000000000007", "3", "10.01"}[k%5]
+				}
+				v, _ := denoted(amount)
+				targets[spell[(rngPerm+k)%len(spell)]] = types.TransferData{Balance: amount}
+				wantPer[acct].Add(wantPer[acct], v)
+				total.Add(total, v)
+				amountsHex = append(amountsHex, hx.CoqHex([]byte(amount)))
+			}
+		}
+		srcBal := new(big.Int).Add(total, new(big.Int).SetBytes(rng.Bytes(rng.Intn(9))))
+		adb.SetBalance(src, srcBal)
+		extra, _ := json.Marshal(targets)
+		tx := &types.Transaction{Source: src.GetHexString(), Type: types.TransactionTypeOperatorEvent, ExtraData: string(extra), Hash: common.BytesToHash(rng.Bytes(32))}
+		var ok bool
+		var msg string
+		if p := func() (p interface{}) {
+			defer func() { p = recover() }()
+			ok, msg = opx.Execute(tx, header, adb, map[string]interface{}{"situation": "testing"})
+			return nil
+		}(); p != nil {
+			res.Violate("C18/panic:consumer:"+site, fmt.Sprint(p), string(extra))
+			return
+		}
+		in := map[string]interface{}{"source_balance": srcBal.String(), "targets": string(extra)}
+		debited := new(big.Int).Sub(srcBal, adb.GetBalance(src))
+		bad := !ok || debited.Cmp(total) != 0
+		detail := ""
+		for acct, w := range wantPer {
+			credited := new(big.Int).Sub(adb.GetBalance(acct), before[acct])
+			if credited.Cmp(w) != 0 {
+				bad = true
+				detail += fmt.Sprintf(" account %s credited %v, the amounts addressed to it denote %v;", acct.GetHexString(), credited, w)
+			}
+		}
+		if bad {
+			res.Violate("C18/consumer:"+site+":amount-differs", fmt.Sprintf("target list %s from a balance of %v: ok=%v (%s), source debited %v, the amounts denote %v in total;%s", string(extra), srcBal, ok, msg, debited, total, detail), in)
+		}
+		if ok {
+			cs.Add(fmt.Sprintf("CSum %s %s", hx.CoqList(amountsHex), coqBig(debited)), map[string]interface{}{"fn": "ChangeAssets: total debited for a target list", "targets": string(extra), "debited": debited.String()})
+		}
+		res.Count(fmt.Sprintf("consumer-%s-multi-%dx%d", site, nAccounts, spellingsPer), "M|"+string(extra), true)
+	}
+	rounds := 3
+	if a.Tier == "thorough" {
+		rounds = 30
+	}
+	for r := 0; r < rounds; r++ {
+		multi(1, 2)
+		multi(1, 5)
+		multi(3, 1)
+		multi(2, 3)
 	}
 	// refused forms: negative amount, malformed amount
 	transfer("negative", mk2("5000000000000000000"), "-1", big.NewInt(-1))
